@@ -87,6 +87,20 @@ class Pruner:
         self._send("(push)\n" + "\n".join(f"(assert {n})" for n in dict.fromkeys(ns)) + "\n(check-sat)\n(pop)\n")
         self.p.stdin.flush()
         self.queries += 1
+        # z3's own :timeout is not honoured by every tactic: a wall-clock guard on top of it
+        import select
+        ready, _, _ = select.select([self.p.stdout], [], [], max(10.0, 4 * self.per_query_ms / 1000.0))
+        if not ready:
+            if os.environ.get("VERIF_PRUNE_DEBUG"):
+                from . import solve
+                text, _ = solve.script(list(pc) + [cond], False)
+                with open(os.path.join(os.environ["VERIF_PRUNE_DEBUG"], f"prune_timeout_{self.queries}.smt2"), "w") as f:
+                    f.write(text)
+            self.unknown += 1
+            self.close()
+            self.restarts += 1
+            self._start()
+            return True   # no answer: the branch is kept
         line = self.p.stdout.readline().strip()
         while line.startswith("(error") or line == "":
             if line == "" and self.p.poll() is not None:
